@@ -149,7 +149,7 @@ struct Target {
     sized: fn(usize, bool, u8) -> Frame,
 }
 
-const CALL_SIGMA: &[&[u8]] = &[b"{}", b"{\"a\":1}", b"[]", b"1", b"{\"a\":\"x\"}", b"{", b"x", b"{\"a\"", b"}{", b" {}", b"{} ", b"\n{}\t", b" ", b"{}x", "{\"\u{e9}\":2}".as_bytes(), b"{\"\xff\":2}", b"{\"b\":\"\\u0000\"}", "{\"\u{e9}\u{e9}\":\"\u{fc}\"}".as_bytes()];
+const CALL_SIGMA: &[&[u8]] = &[b"{}", b"{\"a\":1}", b"[]", b"1", b"{\"a\":\"x\"}", b"{", b"x", b"{\"a\"", b"}{", b" {}", b"{} ", b"\n{}\t", b" ", b"{}x", "{\"\u{e9}\":2}".as_bytes(), b"{\"\xff\":2}", b"{\"b\":\"\\u0000\"}", "{\"\u{e9}\u{e9}\":\"\u{fc}\"}".as_bytes(), b""];
 
 /// `n` bytes of string content: letters, with a two-byte character (U+00E9) every few bytes so that
 /// every stretch of eight bytes holds bytes above 0x7f.
@@ -248,7 +248,9 @@ fn sized_reply<P: for<'a> Deserialize<'a> + std::fmt::Debug>(size: usize, valid:
 }
 
 fn targets() -> Vec<Target> {
-    let call_sigma = |f: fn(&[u8]) -> String| -> Vec<Frame> { CALL_SIGMA.iter().map(|s| Frame { bytes: s.to_vec(), expect: f(s) }).collect() };
+    // (the last symbol is the empty frame - a bare NUL: the statement speaks of non-empty frames only,
+    // so skipping it or answering it with an error both pass, but what surrounds it must be unaffected)
+    let call_sigma = |f: fn(&[u8]) -> String| -> Vec<Frame> { CALL_SIGMA.iter().map(|s| Frame { bytes: s.to_vec(), expect: if s.is_empty() { "empty".into() } else { f(s) } }).collect() };
     let meth_sigma: Vec<Frame> = [
         "{\"method\":\"a.U\"}",
         "{\"method\":\"a.P\",\"parameters\":{\"s\":\"q\"}}",
@@ -495,7 +497,7 @@ impl Harness for Framing {
         }
         cx.log(|| format!("target {}; peer sends {} frame(s): {}", t.name, frames.len(), show(&stream)));
         for w in frames.windows(2) {
-            if w[0].expect == "err" && w[1].expect != "err" {
+            if w[0].expect == "err" && w[1].expect != "err" && w[1].expect != "empty" {
                 cx.goal("good-frame-after-bad");
             }
         }
@@ -509,22 +511,55 @@ impl Harness for Framing {
 
         // 3. receive, comparing after every step
         let mut h = H64::new();
-        for (i, f) in frames.iter().enumerate() {
+        // The set of frames the next result may belong to: one frame, unless empty frames (bare NULs)
+        // are in the stream - the statement does not cover those, so each of them may have been
+        // skipped or answered with an error, and every reading that fits is accepted.
+        let closure = |set: &mut std::collections::BTreeSet<usize>| {
+            let mut add = Vec::new();
+            for j in set.iter() {
+                let mut k = *j;
+                while k < frames.len() && frames[k].expect == "empty" {
+                    k += 1;
+                    add.push(k);
+                }
+            }
+            set.extend(add);
+        };
+        let mut at: std::collections::BTreeSet<usize> = [0usize].into_iter().collect();
+        closure(&mut at);
+        if frames.iter().any(|f| f.expect == "empty") {
+            cx.goal("empty-frame-between-others");
+        }
+        let mut n = 0usize;
+        let last;
+        loop {
             let got = (t.recv)(&mut conn, cx, self.cancel);
-            cx.log(|| format!("receive #{i}: {got}    (expected: {})", f.expect));
+            let i = *at.iter().next().unwrap();
+            cx.log(|| format!("receive #{n}: {got}    (frame(s) {at:?} of {} may be next)", frames.len()));
+            n += 1;
             let consumed = wire.0.borrow().consumed;
             cx.state(H64::new().u(i as u64).u(consumed as u64).s(&got).get());
             h.s(&got);
+            if at.contains(&frames.len()) && got == "eof" {
+                last = got;
+                break;
+            }
             // a frame that does not decode yields an error - but not the end-of-stream report, which
             // belongs to the moment the peer has closed and everything was consumed (consumers read
             // until then)
-            let ok = if f.expect == "err" { got == "err" } else { got == f.expect };
-            if !ok {
+            let fits = |f: &Frame| if f.expect == "err" || f.expect == "empty" { got == "err" } else { got == f.expect };
+            let mut next: std::collections::BTreeSet<usize> = at.iter().filter(|j| **j < frames.len() && fits(&frames[**j])).map(|j| j + 1).collect();
+            if next.is_empty() {
+                if i >= frames.len() {
+                    last = got;
+                    break;
+                }
+                let f = &frames[i];
                 let kind = if got == "STALL" {
                     "stall"
-                } else if f.expect == "err" && got == "eof" {
+                } else if (f.expect == "err" || f.expect == "empty") && got == "eof" {
                     "end-of-stream-reported-for-a-frame-that-does-not-decode"
-                } else if f.expect == "err" {
+                } else if f.expect == "err" || f.expect == "empty" {
                     "bad-frame-delivered-as-message"
                 } else if got == "err" || got == "eof" {
                     "good-frame-rejected-or-lost"
@@ -533,13 +568,14 @@ impl Harness for Framing {
                 };
                 return Verdict::fail(
                     format!("framing:{kind}"),
-                    format!("{}: stream {} ; receive #{i} returned `{got}` but frame #{i} `{}` denotes `{}`", t.name, show(&stream), show(&f.bytes), f.expect),
+                    format!("{}: stream {} ; receive #{} returned `{got}` but frame #{i} `{}` denotes `{}`", t.name, show(&stream), n - 1, show(&f.bytes), f.expect),
                 );
             }
+            closure(&mut next);
+            at = next;
         }
-        let got = (t.recv)(&mut conn, cx, self.cancel);
+        let got = last;
         cx.log(|| format!("receive after last frame: {got}    (expected: eof)"));
-        h.s(&got);
         if got != "eof" {
             return Verdict::fail(
                 "framing:no-eof-after-last-frame",
@@ -616,7 +652,7 @@ fn run(prop: &str, tier: Tier, cancel: bool) -> i32 {
     };
     rep.assumptions = vec![
         "the scripted ReadHalf is itself cancel-safe (bytes leave its queue only in the poll that returns them), as ReadHalf::read requires".into(),
-        "frames are non-empty, as the property states".into(),
+        "the statement is about non-empty frames; an empty frame (a bare NUL) in the stream may be skipped or answered with an error, but the results of the frames around it must be what they are without it".into(),
         "which error a bad frame yields is not fixed by the property: any error is accepted at a bad frame's position".into(),
     ];
     for g in ["all-partitions", "good-frame-after-bad", "frame-split-across-reads-or-polls"] {
